@@ -113,7 +113,7 @@ impl Serialize for String {
     fn deserialize(bytes: &[u8]) -> Result<Self, DbError> {
         let len = usize::deserialize(bytes)?;
         let begin = len.serialized_size() as usize;
-        let end = begin + len;
+        let end = begin.saturating_add(len);
 
         Ok(String::from_utf8(
             bytes
@@ -165,10 +165,11 @@ impl<T: Serialize> Serialize for Vec<T> {
     fn deserialize(bytes: &[u8]) -> Result<Self, DbError> {
         let len = usize::deserialize(bytes)?;
         let mut begin = len.serialized_size() as usize;
-        let mut vec = Self::with_capacity(len);
+        // the length is untrusted: never reserve more than the input could hold
+        let mut vec = Self::with_capacity(std::cmp::min(len, bytes.len()));
 
         for _ in 0..len {
-            let value = T::deserialize(&bytes[begin..]).map_err(|_| {
+            let value = T::deserialize(bytes.get(begin..).unwrap_or_default()).map_err(|_| {
                 DbError::serialization(
                     DbErrorType::OutOfBounds,
                     format!("Vec<{}> deserialization error", std::any::type_name::<T>()),
@@ -204,7 +205,7 @@ impl Serialize for Vec<u8> {
     fn deserialize(bytes: &[u8]) -> Result<Self, DbError> {
         let len = usize::deserialize(bytes)?;
         let begin = len.serialized_size() as usize;
-        let end = begin + len;
+        let end = begin.saturating_add(len);
 
         Ok(bytes
             .get(begin..end)
@@ -266,7 +267,14 @@ impl Serialize for SystemTime {
         let before_epoch = bytes[12] == 0_u8;
         let secs = u64::from_le_bytes(secs_bytes);
         let nanos = u32::from_le_bytes(nanos_bytes);
-        let duration = Duration::new(secs, nanos);
+        let duration = Duration::from_secs(secs)
+            .checked_add(Duration::from_nanos(nanos as u64))
+            .ok_or_else(|| {
+                DbError::serialization(
+                    DbErrorType::OutOfBounds,
+                    "SystemTime deserialization error: duration out of range",
+                )
+            })?;
 
         if before_epoch {
             Ok(UNIX_EPOCH.checked_sub(duration).ok_or_else(|| {
